@@ -73,6 +73,11 @@ ASSUMPTIONS = [
     "dataset contents (array data, property values, data frames) are outside the graph model: their equality and "
     "independence are checked by the implementation-side oracle only",
     "uuid4 ids are drawn from an abstract fresh supply (disjoint supplies for the two files)",
+    "(T) harness/extract/copyshape.py accepts only the statement forms listed in its docstring (anything else: broken "
+    "tie); `grp.copy(source=…, dest=…, name=…, shallow=…)` is h5py's Group.copy, read as the modelled object copy",
+    "the error class of a refused append / del / membership test with a Feature *object* as key is compared as "
+    "'refused' only (a Feature whose data is gone raises RuntimeError from its __str__ inside util.is_uuid, the shared "
+    "model says TypeError; the file is unchanged either way)",
 ]
 TRUSTED_EXTRA = [
     "harness/lib/storeimpl2.py + storegen2.py + storeimpl.py (two-file protocol, path addressing by iteration, "
@@ -396,6 +401,12 @@ def canon_dump(nodes):
     return out
 
 
+def feature_object_key(op):
+    """`append` / `del` / `has` with a Feature *object* as the key"""
+    return (op[0] in ("append", "del", "has") and len(op) > 3 and isinstance(op[3], dict) and "o" in op[3]
+            and "features" in op[3]["o"])
+
+
 def canon_outs(ops, outs):
     res = []
     for op, o in zip(ops, outs):
@@ -404,6 +415,11 @@ def canon_outs(ops, outs):
                 o = {"ok": canon_dump(o["ok"])}
             except Exception:
                 pass
+        elif "err" in o and feature_object_key(op):
+            # a Feature object where an entity / a key is expected is refused on both sides; the class of the error is
+            # TypeError except for a Feature whose data was deleted (Feature.__str__, called by util.is_uuid, raises
+            # RuntimeError; the shared model says TypeError). Not this property's subject: compared as refused.
+            o = {"err": "refused"}
         res.append(o)
     return res
 
